@@ -229,6 +229,8 @@ pub fn c16(out: &mut dyn Write, tier: &str, rng: &mut Rng, st: &mut Stats) {
         st.hit(&format!("flags.u{}a{}", u as u8, a as u8));
         let edges_field = edges.iter().map(|(x, y)| format!("{}>{}", hex(x.as_bytes()), hex(y.as_bytes()))).collect::<Vec<_>>().join(",");
         if class != "ok" { writeln!(out, "C16|clique|{}|{}|{}|{}|-||-", u as u8, a as u8, edges_field, class).unwrap(); continue; }
+        // the bytes themselves, for the text model of the generator (recorded tie)
+        writeln!(out, "C16|text|{}|{}|{}|{}|{}", u as u8, a as u8, hex(crate_version("max_clique_gen").as_bytes()), edges_field, hex(&stdout)).unwrap();
         match parse_text(&stdout, None) {
             Parsed::Ok(pf) => {
                 // what the real solver lists (vertex sets), when every row is fully determined
